@@ -1013,3 +1013,100 @@ Example side_condition_can_fail :
   consistent_side [SConst false false false; Assign [Some "law"%string]; SConst true false false;
                    FnDef "f"%string true; SConst false true false] = false.
 Proof. vm_compute. reflexivity. Qed.
+
+(* ------------------------------------------------------------------------------------------- *)
+(* F. the specification function spec_disabled, declaratively                                     *)
+(* ------------------------------------------------------------------------------------------- *)
+
+(* statement i is a member, statement j > i is a docstring that wants the source form, no member in between *)
+Definition documents (body : list stmt) (i j : nat) : Prop :=
+  i < j
+  /\ (exists si, nth_error body i = Some si /\ is_member si = true)
+  /\ (exists sj, nth_error body j = Some sj /\ wants_disable sj = true)
+  /\ forall k s', i < k < j -> nth_error body k = Some s' -> is_member s' = false.
+
+Definition pending (body : list stmt) : Prop :=      (* a wanting docstring before any member of body *)
+  exists j sj, nth_error body j = Some sj /\ wants_disable sj = true
+    /\ forall k s', k < j -> nth_error body k = Some s' -> is_member s' = false.
+
+Lemma wants_not_member s : wants_disable s = true -> is_member s = false.
+Proof. destruct s; cbn; try discriminate; auto. Qed.
+
+Lemma spec_disabled_from_iff :
+  forall body idx c i,
+    In i (spec_disabled_from idx c body) <->
+    (c = Some i /\ pending body) \/ (exists a j, i = idx + a /\ documents body a j).
+Proof.
+  induction body as [|s body IH]; intros idx c i.
+  - cbn. split; [contradiction|].
+    intros [[_ (j & sj & H & _)]|(a & j & _ & _ & (si & H & _) & _)]; [destruct j; discriminate|destruct a; discriminate].
+  - cbn [spec_disabled_from].
+    (* shifting facts between body and s :: body *)
+    assert (Shift : forall a j, documents body a j -> documents (s :: body) (S a) (S j)).
+    { intros a j (H1 & H2 & H3 & H4). split; [lia|]. split; [exact H2|]. split; [exact H3|].
+      intros [|k] s' Hk Hs'; [lia|]. cbn in Hs'. apply (H4 k); [lia|exact Hs']. }
+    assert (Unshift : forall a j, documents (s :: body) (S a) j -> exists j0, j = S j0 /\ documents body a j0).
+    { intros a [|j] (H1 & H2 & H3 & H4); [lia|]. exists j. split; [reflexivity|].
+      split; [lia|]. split; [exact H2|]. split; [exact H3|].
+      intros k s' Hk Hs'. apply (H4 (S k)); [lia|exact Hs']. }
+    destruct (is_member s) eqn:Em.
+    + rewrite IH. split.
+      * intros [[E (j & sj & Hj & Hw & Hno)]|(a & j & -> & Hd)].
+        -- inversion E; subst i. right. exists 0, (S j). split; [lia|].
+           split; [lia|]. split; [exists s; auto|]. split; [exists sj; auto|].
+           intros [|k] s' Hk Hs'; [lia|]. cbn in Hs'. apply (Hno k); [lia|exact Hs'].
+        -- right. exists (S a), (S j). split; [lia|]. now apply Shift.
+      * intros [[_ (j & sj & Hj & Hw & Hno)]|(a & j & -> & Hd)].
+        -- exfalso. destruct j as [|j].
+           ++ cbn in Hj. inversion Hj; subst sj. apply wants_not_member in Hw. congruence.
+           ++ specialize (Hno 0 s ltac:(lia) eq_refl). congruence.
+        -- destruct a as [|a].
+           ++ left. split; [f_equal; lia|]. destruct Hd as (H1 & _ & (sj & Hj & Hw) & Hno).
+              destruct j as [|j]; [lia|]. exists j, sj. cbn in Hj. split; [exact Hj|]. split; [exact Hw|].
+              intros k s' Hk Hs'. apply (Hno (S k)); [lia|exact Hs'].
+           ++ right. destruct (Unshift _ _ Hd) as (j0 & -> & Hd0). exists a, j0. split; [lia|exact Hd0].
+    + assert (Tail : In i (spec_disabled_from (S idx) c body) <->
+                     (c = Some i /\ pending body) \/ (exists a j, i = idx + S a /\ documents body a j)).
+      { rewrite IH. split.
+        - intros [[E P]|(a & j & -> & Hd)]; [left; auto|right; exists a, j; split; [lia|exact Hd]].
+        - intros [[E P]|(a & j & -> & Hd)]; [left; auto|right; exists a, j; split; [lia|exact Hd]]. }
+      assert (PendShift : pending body -> pending (s :: body)).
+      { intros (j & sj & Hj & Hw & Hno). exists (S j), sj. split; [exact Hj|]. split; [exact Hw|].
+        intros [|k] s' Hk Hs'; cbn in Hs'; [inversion Hs'; subst; exact Em|]. apply (Hno k); [lia|exact Hs']. }
+      assert (Goal2 : (exists a j, i = idx + a /\ documents (s :: body) a j) <-> (exists a j, i = idx + S a /\ documents body a j)).
+      { split.
+        - intros (a & j & -> & Hd). destruct a as [|a].
+          + destruct Hd as (_ & (si & Hi & Hm) & _). cbn in Hi. inversion Hi; subst si. congruence.
+          + destruct (Unshift _ _ Hd) as (j0 & -> & Hd0). exists a, j0. auto.
+        - intros (a & j & -> & Hd). exists (S a), (S j). split; [reflexivity|now apply Shift]. }
+      assert (PendHead : pending (s :: body) -> wants_disable s = true \/ pending body).
+      { intros (j & sj & Hj & Hw & Hno). destruct j as [|j].
+        - cbn in Hj. inversion Hj; subst sj. now left.
+        - right. exists j, sj. cbn in Hj. split; [exact Hj|]. split; [exact Hw|].
+          intros k s' Hk Hs'. apply (Hno (S k)); [lia|exact Hs']. }
+      assert (HeadPend : wants_disable s = true -> pending (s :: body)).
+      { intros Hw. exists 0, s. split; [reflexivity|]. split; [exact Hw|]. intros k s' Hk; lia. }
+      destruct c as [i0|].
+      * destruct (wants_disable s) eqn:Ew.
+        -- cbn [In]. rewrite Tail, Goal2. split.
+           ++ intros [<-|[[E P]|H]]; [left; split; [reflexivity|now apply HeadPend]| left; split; [exact E|now apply PendShift]|now right].
+           ++ intros [[E P]|H]; [|right; now right]. inversion E; subst i0. now left.
+        -- rewrite Tail, Goal2. split.
+           ++ intros [[E P]|H]; [left; split; [exact E|now apply PendShift]|now right].
+           ++ intros [[E P]|H]; [|now right]. left. split; [exact E|].
+              destruct (PendHead P) as [Hw|P']; [congruence|exact P'].
+      * rewrite Tail, Goal2. split.
+        -- intros [[E _]|H]; [discriminate|now right].
+        -- intros [[E _]|H]; [discriminate|now right].
+Qed.
+
+Lemma spec_disabled_iff_documents : forall body i, In i (spec_disabled body) <-> exists j, documents body i j.
+Proof.
+  intros body i. unfold spec_disabled. rewrite spec_disabled_from_iff. split.
+  - intros [[E _]|(a & j & -> & Hd)]; [discriminate|]. exists j. exact Hd.
+  - intros (j & Hd). right. exists i, j. split; [reflexivity|exact Hd].
+Qed.
+
+Lemma patch_disables_declarative_lemma :
+  forall body i, In i (off_stmts true (patch body)) <-> exists j, documents body i j.
+Proof. intros body i. rewrite patch_disables_lemma. apply spec_disabled_iff_documents. Qed.
